@@ -30,6 +30,9 @@ type Case struct {
 	OutSizes   []int  `json:"out_sizes"`
 	WriteFrom  string `json:"write_from"` // open, first-message
 	Ending     string `json:"ending"`     // client-close, client-cut, server-close, client-reset
+	// YieldPerMille (instrumented build only): probability, in 1/1000, with which every lock / unlock
+	// statement of the library yields the processor or sleeps 1-50 us (schedule perturbation)
+	YieldPerMille int `json:"yield_per_mille,omitempty"`
 }
 
 const frameHdr = 12
@@ -214,6 +217,7 @@ func startServer(c Case) (*wsServer, error) {
 }
 
 func runCase(c Case) vlib.Result {
+	defer vlib.Yield(c.YieldPerMille, 0x5eed)()
 	res := vlib.Result{Classes: []string{fmt.Sprintf("cell=%s/async=%v/%s", c.Path, c.AsyncWrite, c.Mode), "ending=" + c.Ending}}
 	vlib.Logs.Take()
 	s, err := startServer(c)
@@ -549,6 +553,9 @@ func gen(t *rapid.T) Case {
 	}
 	c.WriteFrom = rapid.SampledFrom([]string{"open", "first-message"}).Draw(t, "writefrom")
 	c.Ending = rapid.SampledFrom([]string{"client-close", "client-cut", "server-close", "client-reset"}).Draw(t, "ending")
+	if vlib.YieldAvailable {
+		c.YieldPerMille = rapid.SampledFrom([]int{0, 0, 20, 100, 300}).Draw(t, "yield")
+	}
 	return c
 }
 
